@@ -173,10 +173,11 @@ def pairsOf {α} : List α → List (α × α)
   | k :: v :: more => (k, v) :: pairsOf more
   | _ => []
 
-/-- stable insertion sort by key (Python's `sorted(…, key=str)`) -/
+/-- stable insertion sort by key (Python's `sorted(…, key=str)`): the elements are inserted last-to-first, each before
+the first element whose key is not smaller, so that elements with equal keys keep their order -/
 def insertBy {α} (key : α → String) (x : α) : List α → List α
   | [] => [x]
-  | y :: ys => if key x < key y then x :: y :: ys else y :: insertBy key x ys
+  | y :: ys => if ¬ (key y < key x) then x :: y :: ys else y :: insertBy key x ys
 def sortBy {α} (key : α → String) (l : List α) : List α := l.reverse.foldl (fun acc x => insertBy key x acc) []
 
 /-- `str(c)` for a constant `c` (HRPrinter: `printers.py:94-121, 180-184, 278-291`) -/
@@ -197,6 +198,14 @@ def hrStr : Term → String
           ++ String.join (ps.map (fun kv => "[" ++ kv.1 ++ " := " ++ kv.2 ++ "]"))
       | _, _ => "?"
     | _, _ => "?"
+
+/-- `dict(zip(keys, values))` (`array_value_assigned_values_map`, fnode.py:667-669) on the assignments of an array value,
+each carried with what was printed for it: a key that occurs again keeps its first position and takes the later value -/
+def dictInsert {β} (e : (Term × Term) × (β × β)) : List ((Term × Term) × (β × β)) → List ((Term × Term) × (β × β))
+  | [] => [e]
+  | x :: xs => if x.1.1 == e.1.1 then ((x.1.1, e.1.2), (x.2.1, e.2.2)) :: xs else x :: dictInsert e xs
+def dictPairs {β} (l : List ((Term × Term) × (β × β))) : List ((Term × Term) × (β × β)) :=
+  l.foldl (fun acc e => dictInsert e acc) []
 
 /-- `(store … (store ((as const σ) d) k1 v1) … kn vn)` -/
 def storeChain (sp : Spell) (arrTy : Sexp) (d : Sexp) (ents : List (Sexp × Sexp)) : Sexp :=
@@ -232,7 +241,8 @@ def nodeSexp (sp : Spell) (sorted : Bool) (op : Op) (p : Payload) (args : List T
     match args, as with
     | d :: rest, ds :: restS =>
       let ents := (pairsOf rest).zip (pairsOf restS)
-      let ents := if sorted then sortBy (fun e => hrStr e.1.1) ents else ents
+      -- the tree printer goes through the dictionary of assignments, the DAG printer through the argument list
+      let ents := if sorted then sortBy (fun e => hrStr e.1.1) (dictPairs ents) else ents
       storeChain sp (arrTySexp idx d) ds (ents.map (·.2))
     | _, _ => .atom "|<ill-formed array value>|"
   | _, _ => .list (.atom (sp (walkKey op)) :: as)
